@@ -73,3 +73,115 @@ Check C15_avg_is_sum_div_count : forall l, l <> [] ->
             bi_avg (nums l) = Ok (VNum (ndiv s (num_of_Z (Z.of_nat (length l))))) /\
             bi_avg [VList (nums l)] = Ok (VNum (ndiv s (num_of_Z (Z.of_nat (length l))))).
 Print Assumptions C15_avg_is_sum_div_count.
+
+(* ---------------------------------------------------------------- min max *)
+(* On a non-empty NaN-free list, min (max) is an element of the list that bounds all others from
+   below (above); the order is f64's (nleb = `<=`, so +0 and -0 are identified). *)
+Theorem C15_min_bound : forall l, l <> [] -> nan_free l = true ->
+  exists m, bi_min (nums l) = Ok (VNum m) /\ bi_min [VList (nums l)] = Ok (VNum m) /\
+            In m l /\ forall x, In x l -> nle m x.
+Proof. exact min_bound. Qed.
+Check C15_min_bound : forall l, l <> [] -> nan_free l = true ->
+  exists m, bi_min (nums l) = Ok (VNum m) /\ bi_min [VList (nums l)] = Ok (VNum m) /\
+            In m l /\ forall x, In x l -> nle m x.
+Print Assumptions C15_min_bound.
+
+Theorem C15_max_bound : forall l, l <> [] -> nan_free l = true ->
+  exists m, bi_max (nums l) = Ok (VNum m) /\ bi_max [VList (nums l)] = Ok (VNum m) /\
+            In m l /\ forall x, In x l -> nle x m.
+Proof. exact max_bound. Qed.
+Check C15_max_bound : forall l, l <> [] -> nan_free l = true ->
+  exists m, bi_max (nums l) = Ok (VNum m) /\ bi_max [VList (nums l)] = Ok (VNum m) /\
+            In m l /\ forall x, In x l -> nle x m.
+Print Assumptions C15_max_bound.
+
+Example nan_free_satisfiable : nan_free [n1; nnzero; npinf; nninf; n100] = true.
+Proof. reflexivity. Qed.
+
+(* ---------------------------------------------------------------- order statistics *)
+(* is_order_stat l k v  :=  v occurs in l, at most k elements of l are < v, more than k are <= v.
+   The definition counts, so it is invariant under permutation by construction; on NaN-free lists
+   it determines v up to ==, and it is monotone in k. *)
+Theorem C15_order_stat_perm : forall l l' k v,
+  Permutation l l' -> is_order_stat l k v -> is_order_stat l' k v.
+Proof. exact order_stat_perm. Qed.
+Check C15_order_stat_perm : forall l l' k v,
+  Permutation l l' -> is_order_stat l k v -> is_order_stat l' k v.
+Print Assumptions C15_order_stat_perm.
+
+Theorem C15_order_stat_unique : forall l k v w,
+  nan_free l = true -> is_order_stat l k v -> is_order_stat l k w -> neq v w.
+Proof. exact order_stat_unique. Qed.
+Check C15_order_stat_unique : forall l k v w,
+  nan_free l = true -> is_order_stat l k v -> is_order_stat l k w -> neq v w.
+Print Assumptions C15_order_stat_unique.
+
+Theorem C15_order_stat_mono : forall l j k v w, nan_free l = true -> (j <= k)%nat ->
+  is_order_stat l j v -> is_order_stat l k w -> nle v w.
+Proof. exact order_stat_mono. Qed.
+Check C15_order_stat_mono : forall l j k v w, nan_free l = true -> (j <= k)%nat ->
+  is_order_stat l j v -> is_order_stat l k w -> nle v w.
+Print Assumptions C15_order_stat_mono.
+
+(* the sort the code uses: sorts every NaN-free list (a permutation, ascending) ... *)
+Theorem C15_sort_sorts : forall l, nan_free l = true ->
+  exists s, sort_pc l = Ok s /\ Permutation l s /\ Sorted.Sorted nle s.
+Proof. exact sort_pc_sorts. Qed.
+Check C15_sort_sorts : forall l, nan_free l = true ->
+  exists s, sort_pc l = Ok s /\ Permutation l s /\ Sorted.Sorted nle s.
+Print Assumptions C15_sort_sorts.
+
+(* ... and aborts exactly when there are at least two numbers and one of them is a NaN *)
+Theorem C15_sort_panic_iff : forall l,
+  sort_pc l = Panic <-> ((2 <= length l)%nat /\ has_nan l = true).
+Proof. exact sort_pc_panic_iff. Qed.
+Check C15_sort_panic_iff : forall l,
+  sort_pc l = Panic <-> ((2 <= length l)%nat /\ has_nan l = true).
+Print Assumptions C15_sort_panic_iff.
+
+(* ---------------------------------------------------------------- median *)
+(* median is the middle order statistic, or (x + y) / 2.0 for the two middle ones *)
+Theorem C15_median_order_stat : forall l, l <> [] -> nan_free l = true ->
+  let n := length l in
+  exists m, bi_median (nums l) = Ok (VNum m) /\ bi_median [VList (nums l)] = Ok (VNum m) /\
+    if Nat.even n
+    then exists x y, is_order_stat l (n / 2 - 1) x /\ is_order_stat l (n / 2) y /\
+                     m = ndiv (nadd x y) n2
+    else is_order_stat l (n / 2) m.
+Proof. exact median_order_stat. Qed.
+Check C15_median_order_stat : forall l, l <> [] -> nan_free l = true ->
+  let n := length l in
+  exists m, bi_median (nums l) = Ok (VNum m) /\ bi_median [VList (nums l)] = Ok (VNum m) /\
+    if Nat.even n
+    then exists x y, is_order_stat l (n / 2 - 1) x /\ is_order_stat l (n / 2) y /\
+                     m = ndiv (nadd x y) n2
+    else is_order_stat l (n / 2) m.
+Print Assumptions C15_median_order_stat.
+
+(* ---------------------------------------------------------------- permutation invariance *)
+(* exact (no rounding) for min / max / median: equal as numbers (==; the stable sort keeps the
+   input order of +0 and -0, so the bit pattern of a zero result may differ) *)
+Theorem C15_min_perm_invariant : forall l l', Permutation l l' -> l <> [] -> nan_free l = true ->
+  exists m m', bi_min (nums l) = Ok (VNum m) /\ bi_min (nums l') = Ok (VNum m') /\ neq m m'.
+Proof. exact min_perm_invariant. Qed.
+Check C15_min_perm_invariant : forall l l', Permutation l l' -> l <> [] -> nan_free l = true ->
+  exists m m', bi_min (nums l) = Ok (VNum m) /\ bi_min (nums l') = Ok (VNum m') /\ neq m m'.
+Print Assumptions C15_min_perm_invariant.
+
+Theorem C15_max_perm_invariant : forall l l', Permutation l l' -> l <> [] -> nan_free l = true ->
+  exists m m', bi_max (nums l) = Ok (VNum m) /\ bi_max (nums l') = Ok (VNum m') /\ neq m m'.
+Proof. exact max_perm_invariant. Qed.
+Check C15_max_perm_invariant : forall l l', Permutation l l' -> l <> [] -> nan_free l = true ->
+  exists m m', bi_max (nums l) = Ok (VNum m) /\ bi_max (nums l') = Ok (VNum m') /\ neq m m'.
+Print Assumptions C15_max_perm_invariant.
+
+Theorem C15_median_perm_invariant : forall l l',
+  Permutation l l' -> l <> [] -> nan_free l = true ->
+  exists m m', bi_median (nums l) = Ok (VNum m) /\ bi_median (nums l') = Ok (VNum m') /\
+               same_num m m'.
+Proof. exact median_perm_invariant. Qed.
+Check C15_median_perm_invariant : forall l l',
+  Permutation l l' -> l <> [] -> nan_free l = true ->
+  exists m m', bi_median (nums l) = Ok (VNum m) /\ bi_median (nums l') = Ok (VNum m') /\
+               same_num m m'.
+Print Assumptions C15_median_perm_invariant.
